@@ -39,6 +39,7 @@ type c06Resp struct {
 	Location string
 	HeadLen  int  // > 0 (HEAD requests only): the response announces this Content-Length but, as for every HEAD, carries no body
 	CloseErr bool `json:",omitempty"` // Close reports an error (after the fact: the exchange is complete, the result is not affected)
+	ReqRead  int  `json:",omitempty"` // k > 0: the transport answers after reading only the first k-1 bytes of the request body (an early answer, as from a server that never reads the body); 0: the whole body
 }
 
 type c06Exchange struct {
@@ -169,11 +170,6 @@ func (t *c06Transport) RoundTrip(req *http.Request) (*http.Response, error) {
 		t.steps, t.seen, t.bodies = map[int]int{}, map[int][]c06Seen{}, map[int][]*c06Body{}
 	}
 	s := c06Seen{Method: req.Method, URL: req.URL.String(), Host: req.Host, Header: req.Header.Clone(), ContentLength: req.ContentLength, TE: append([]string(nil), req.TransferEncoding...)}
-	if req.Body != nil {
-		s.Body, _ = io.ReadAll(req.Body)
-		req.Body.Close()
-	}
-	t.seen[idx] = append(t.seen[idx], s)
 	ex := t.c.Exchanges[idx]
 	var r c06Resp
 	step := t.steps[idx]
@@ -181,10 +177,21 @@ func (t *c06Transport) RoundTrip(req *http.Request) (*http.Response, error) {
 	if step < len(ex.Redirects) {
 		r = ex.Redirects[step]
 	} else {
-		if ex.TransportEr {
-			return nil, errC06Transport
-		}
 		r = ex.Final
+	}
+	if req.Body != nil {
+		if r.ReqRead > 0 {
+			// RoundTrip may answer before the request body is written out (net/http's transport does when the server
+			// answers from the request head); the body is closed all the same
+			s.Body, _ = io.ReadAll(io.LimitReader(req.Body, int64(r.ReqRead-1)))
+		} else {
+			s.Body, _ = io.ReadAll(req.Body)
+		}
+		req.Body.Close()
+	}
+	t.seen[idx] = append(t.seen[idx], s)
+	if step >= len(ex.Redirects) && ex.TransportEr {
+		return nil, errC06Transport
 	}
 	body := &c06Body{r: r}
 	t.bodies[idx] = append(t.bodies[idx], body)
@@ -292,7 +299,15 @@ func runC06(c c06Case) error {
 		if first.Method != wantMethod || first.URL != wantURL {
 			return fmt.Errorf("%s: transport saw %s %s", what, first.Method, first.URL)
 		}
-		if !bytes.Equal(first.Body, ex.Body) || first.ContentLength != int64(len(ex.Body)) {
+		wantSeen := ex.Body
+		firstResp := ex.Final
+		if len(ex.Redirects) > 0 {
+			firstResp = ex.Redirects[0]
+		}
+		if firstResp.ReqRead > 0 && len(wantSeen) > firstResp.ReqRead-1 {
+			wantSeen = wantSeen[:firstResp.ReqRead-1]
+		}
+		if !bytes.Equal(first.Body, wantSeen) || first.ContentLength != int64(len(ex.Body)) {
 			return fmt.Errorf("%s: transport saw a body of %d bytes (ContentLength %d), target has %d", what, len(first.Body), first.ContentLength, len(ex.Body))
 		}
 		ownAttack := []string(nil)
@@ -493,6 +508,9 @@ func c06GenResp(t *rapid.T, l string, redirect bool) c06Resp {
 	r.EOFWith = rapid.Bool().Draw(t, l+".eofwith")
 	r.CloseErr = rapid.IntRange(0, 4).Draw(t, l+".closeerr") == 0
 	r.UnknownL = rapid.Bool().Draw(t, l+".unknownlen")
+	if rapid.IntRange(0, 5).Draw(t, l+".early") == 0 {
+		r.ReqRead = 1 + rapid.SampledFrom([]int{0, 0, 1, 9, 999, 4096, 100000}).Draw(t, l+".reqread")
+	}
 	return r
 }
 
@@ -601,6 +619,10 @@ func TestC06Exchange(t *testing.T) {
 			}
 			if ex.TransportEr {
 				labels = append(labels, "transport-error")
+			}
+			if ex.Final.ReqRead > 0 && len(ex.Body) >= ex.Final.ReqRead {
+				nt = true
+				labels = append(labels, "answered-before-the-request-body-was-read")
 			}
 			keys := map[string]int{}
 			for _, kv := range ex.Headers {
